@@ -1264,6 +1264,21 @@ impl<'a> Run<'a> {
         Ok(())
     }
 
+    /// power cut: the session is forgotten with all its handles open and unflushed; the device keeps its bytes
+    pub fn abandon_keep_image(&mut self) {
+        for f in self.files.iter_mut() {
+            *f = None;
+        }
+        for d in self.dirs.iter_mut() {
+            *d = None;
+        }
+        if let Some(s) = self.sess.take() {
+            let snap = self.dev.snapshot();
+            s.abandon();
+            self.dev.with(|d| d.store = snap);
+        }
+    }
+
     /// C13: end of the read-only session by unmount() or by drop
     pub fn end_readonly(&mut self, by_drop: bool) -> VResult<()> {
         self.close_all()?;
